@@ -169,6 +169,26 @@ func translate(p *Program) (c *compiled) {
 	}
 	c.goOut, c.goErr = renderGo(reg, p, msgs)
 	for name, f := range map[string]soyjs.JSFormatter{"es5": soyjs.ES5Formatter{}, "es6": soyjs.ES6Formatter{}} {
+		if p.Before != nil && name == "es5" {
+			// Generator reuse across a registry update: generate from the old registry, update the
+			// registry in place (as the WatchFiles recompiler does), generate again
+			old, err := soy.NewBundle().AddTemplateString(p.Before.Name, p.Before.Text).Compile()
+			if err != nil {
+				c.rejected = "harness: the earlier version does not compile: " + err.Error()
+				return
+			}
+			g := soyjs.NewGenerator(old)
+			var first, second bytes.Buffer
+			if err := g.WriteFile(&first, p.Before.Name); err != nil {
+				c.genErr[name] = err.Error()
+			}
+			*old = *reg
+			if err := g.WriteFile(&second, p.File.Name); err != nil {
+				c.genErr[name] = err.Error()
+			}
+			c.js[name] = append(c.js[name], second.String())
+			continue
+		}
 		names := map[string]int{}
 		for _, sf := range reg.SoyFiles {
 			names[sf.Name]++
@@ -520,9 +540,15 @@ func generate(ctx *core.Ctx) []*Program {
 			}
 		}
 	}
-	for k := 0; k < 10; k++ {
+	for k := 0; k < 20; k++ {
 		progs = append(progs, BuildAutoescaped(id))
 		id++
+	}
+	for _, s := range core1 {
+		if p, ok := BuildGeneratorReuse(id, s); ok {
+			progs = append(progs, p)
+			id++
+		}
 	}
 	// round 5: near-invalid bundle shapes
 	for _, kind := range ShapeKinds {
